@@ -59,7 +59,7 @@ def extra(chk, thorough):
             for _ in range(12):
                 x = rng.random()
                 if x < 0.7:
-                    r.step(("ack", r.proto._pack_seq))
+                    r.step(("ack", r.cur_seq()))
                 elif x < 0.85:
                     r.step(("rsp", rng.choice(kinds)))
                 else:
@@ -67,7 +67,7 @@ def extra(chk, thorough):
             for _ in range(len(kinds) + 1):       # let every queued request get its turn
                 r.step(("tick", 6000))
                 for _ in range(3):
-                    r.step(("ack", r.proto._pack_seq))
+                    r.step(("ack", r.cur_seq()))
             wire = b"".join(bytes(x) for x in r.wire.log)
             want = []
             import wire_common as W
@@ -107,7 +107,7 @@ def extra(chk, thorough):
             for _ in range(8):
                 if task.done():
                     break
-                r.step(("ack", r.proto._pack_seq))
+                r.step(("ack", r.cur_seq()))
             wire = b"".join(bytes(x) for x in r.wire.log)
             if not task.done():
                 task.cancel()
